@@ -22,6 +22,9 @@ type c07Trans struct {
 	Tracked byte   `json:"tracked_p"` // tracked flags before the call (CPU m/x mirror bits 5/4)
 	Method  string `json:"method"`
 	Mask    int    `json:"mask"` // REP/SEP/AssumeREP/AssumeSEP mask, else -1
+	// Via: 0 the call is made on the emitter itself; 1 on a Clone that is then Appended (the tracked widths
+	// travel with it); 2 on a Clone whose Append is refused for lack of room (nothing may travel)
+	Via int `json:"via,omitempty"`
 }
 
 const c07Base = 0x008000
@@ -32,14 +35,46 @@ var c07Excluded = map[string]bool{"PLP": true, "RTI": true, "RTS": true, "RTL": 
 // after it (next joint state) or a violation.
 func c07Apply(x *cpuCtx, spec map[string]c03Spec, t c07Trans) (next byte, sig, what string) {
 	buf := make([]byte, 16)
-	e := asm.NewEmitter(buf, false)
-	e.SetBase(c07Base)
-	e.AssumeSEP(asm.Flags(t.Tracked))
-	if byte(e.Flags()) != t.Tracked {
-		return 0, "unexplained:assume-sep", fmt.Sprintf("AssumeSEP(%02x) on a fresh emitter gives Flags()=%02x", t.Tracked, byte(e.Flags()))
+	if t.Via == 2 {
+		buf = buf[:0] // no room: the Append must be refused
+	}
+	par := asm.NewEmitter(buf, false)
+	par.SetBase(c07Base)
+	par.AssumeSEP(asm.Flags(t.Tracked))
+	if byte(par.Flags()) != t.Tracked {
+		return 0, "unexplained:assume-sep", fmt.Sprintf("AssumeSEP(%02x) on a fresh emitter gives Flags()=%02x", t.Tracked, byte(par.Flags()))
+	}
+	e := par
+	if t.Via != 0 {
+		e = par.Clone(make([]byte, 16))
 	}
 	cpuP := t.Tracked & 0x30 // the CPU's m and x mirror the assumed widths (relation R)
-	desc := func() string { return fmt.Sprintf("tracked P=%02x, %s mask=%d", t.Tracked, t.Method, t.Mask) }
+	desc := func() string { return fmt.Sprintf("tracked P=%02x, %s mask=%d via=%d", t.Tracked, t.Method, t.Mask, t.Via) }
+	// join: hand the clone back to the parent (Via 1/2); afterwards e is the parent
+	join := func() (sig, what string, refused bool) {
+		if t.Via == 0 {
+			return
+		}
+		n := e.Len()
+		var pn interface{}
+		func() {
+			defer func() { pn = recover() }()
+			par.Append(e)
+		}()
+		e = par
+		switch {
+		case t.Via == 1 && pn != nil:
+			return "unexplained:append-refused:" + t.Method, fmt.Sprintf("%s: Append of %d bytes into a 16-byte buffer panicked: %v", desc(), n, pn), false
+		case t.Via == 2 && n > 0 && pn == nil:
+			return "unexplained:append-without-room:" + t.Method, fmt.Sprintf("%s: Append of %d bytes into a full buffer was accepted", desc(), n), false
+		case t.Via == 2 && n > 0:
+			if byte(par.Flags()) != t.Tracked || par.Len() != 0 || par.PC() != c07Base {
+				return "unexplained:refused-append-changed-tracker:" + t.Method, fmt.Sprintf("%s: the refused Append left the emitter with Flags()=%02x Len=%d PC=$%06x; no code was added, the CPU still has m=%d x=%d", desc(), byte(par.Flags()), par.Len(), par.PC(), t.Tracked>>5&1, t.Tracked>>4&1), false
+			}
+			return "", "", true
+		}
+		return
+	}
 	// environment actions: the caller asserts the CPU state changes, no code is emitted
 	if t.Method == "AssumeREP" || t.Method == "AssumeSEP" {
 		if t.Method == "AssumeREP" {
@@ -48,6 +83,9 @@ func c07Apply(x *cpuCtx, spec map[string]c03Spec, t c07Trans) (next byte, sig, w
 		} else {
 			e.AssumeSEP(asm.Flags(t.Mask))
 			cpuP |= byte(t.Mask) & 0x30
+		}
+		if sig, what, _ := join(); sig != "" {
+			return 0, sig, what
 		}
 		if e.Len() != 0 || e.PC() != c07Base {
 			return 0, "unexplained:assume-emits", desc() + ": an Assume call emitted code or moved PC"
@@ -112,6 +150,11 @@ func c07Apply(x *cpuCtx, spec map[string]c03Spec, t c07Trans) (next byte, sig, w
 	if pn != nil {
 		return 0, "unexplained:legal-call-refused:" + t.Method, fmt.Sprintf("%s: refused: %v", desc(), pn)
 	}
+	if sig, what, refused := join(); sig != "" {
+		return 0, sig, what
+	} else if refused {
+		return t.Tracked, "", "" // nothing was emitted and the tracker is unchanged: same joint state
+	}
 	code := append([]byte(nil), e.Bytes()...)
 	endPC := e.PC()
 	for i := 0; i < 2; i++ {
@@ -166,6 +209,16 @@ func c07Transitions(methods []string) []c07Trans {
 	for _, n := range []string{"AssumeREP", "AssumeSEP"} {
 		for m := 0; m < 256; m++ {
 			ts = append(ts, c07Trans{Method: n, Mask: m})
+		}
+	}
+	direct := len(ts)
+	for via := 1; via <= 2; via++ {
+		for _, t := range ts[:direct] {
+			if via == 2 && (t.Method == "AssumeREP" || t.Method == "AssumeSEP") {
+				continue // nothing is emitted: an empty Append fits anywhere
+			}
+			t.Via = via
+			ts = append(ts, t)
 		}
 	}
 	return ts
@@ -242,9 +295,9 @@ func runC07(r *report.Run) {
 	r.Set("bfs_levels", depth)
 	r.Set("transition_alphabet", map[string]interface{}{"instruction_methods": len(methods) - len(c07Excluded), "excluded": []string{"PLP", "RTI", "RTS", "RTL"}, "REP/SEP masks": 256, "AssumeREP/AssumeSEP masks": 256, "per_state": len(trans)})
 	r.Set("fixpoint", true)
-	r.Set("rule", "BFS to a fixpoint over the joint state (tracked flags byte; CPU m and x, which relation R ties to it) from the four initial width assumptions; every transition really calls the Emitter method on a fresh emitter (every instruction method with one operand representative, control transfers aimed at the next instruction, label branches finalized to displacement 0, REP/SEP and AssumeREP/AssumeSEP with all 256 masks) and then really Steps both CPUs over the emitted bytes: the first bus read must be the opcode fetch at the address the assembler reported, the CPU must end exactly at the assembler's next instruction start and its m/x must equal the tracked widths; width-guarded immediates must be refused exactly on mismatch without touching the emitter. By induction on the length this covers every straight-line program over the alphabet")
-	r.Sample(c07Trans{0x20, "LDA_imm8_b", -1})
-	r.Sample(c07Trans{0x30, "REP", 0x31})
+	r.Set("rule", "BFS to a fixpoint over the joint state (tracked flags byte; CPU m and x, which relation R ties to it) from the four initial width assumptions; every transition really calls the Emitter method on a fresh emitter -- directly, on a Clone that is Appended back (the tracked widths travel with the code), and on a Clone whose Append is refused for lack of room (nothing may travel) -- (every instruction method with one operand representative, control transfers aimed at the next instruction, label branches finalized to displacement 0, REP/SEP and AssumeREP/AssumeSEP with all 256 masks) and then really Steps both CPUs over the emitted bytes: the first bus read must be the opcode fetch at the address the assembler reported, the CPU must end exactly at the assembler's next instruction start and its m/x must equal the tracked widths; width-guarded immediates must be refused exactly on mismatch without touching the emitter. By induction on the length this covers every straight-line program over the alphabet")
+	r.Sample(c07Trans{0x20, "LDA_imm8_b", -1, 0})
+	r.Sample(c07Trans{0x30, "REP", 0x31, 1})
 	r.Assume("operand values do not influence instruction length (C03 covers every operand value); one representative per method")
 	_ = cpuh.Cell{}
 }
